@@ -571,3 +571,229 @@ Proof.
 Qed.
 Lemma handle_wf_valid_path : forall h, handle_wf h -> valid_path (h_path h).
 Proof. intros h [names [Hne [Hv [Hp _]]]]. exists names. auto. Qed.
+
+(* ------------------------------------------------------------------ order facts used by ranges *)
+Lemma bcmp_app_prefix : forall p a b, bcmp (p ++ a) (p ++ b) = bcmp a b.
+Proof. induction p as [|c p IH]; intros a b; cbn; auto. rewrite Z.compare_refl. apply IH. Qed.
+Lemma blt_app_prefix : forall p a b, blt (p ++ a) (p ++ b) = blt a b.
+Proof. intros. unfold blt. rewrite bcmp_app_prefix. reflexivity. Qed.
+Lemma ble_app_prefix : forall p a b, ble (p ++ a) (p ++ b) = ble a b.
+Proof. intros. unfold ble. rewrite bcmp_app_prefix. reflexivity. Qed.
+Lemma ble_refl : forall a, ble a a = true.
+Proof. intros. unfold ble. rewrite bcmp_refl. reflexivity. Qed.
+Lemma ble_trans : forall a b c, ble a b = true -> ble b c = true -> ble a c = true.
+Proof.
+  intros a b c H1 H2. apply ble_iff in H1. apply ble_iff in H2. apply ble_iff.
+  destruct H1 as [H1|H1]; destruct H2 as [H2|H2]; subst; auto. left. eapply blt_trans; eauto.
+Qed.
+Lemma ble_nil : forall a, ble [] a = true.
+Proof. destruct a; reflexivity. Qed.
+Lemma ble_prefix_app : forall p a, ble p (p ++ a) = true.
+Proof. intros. rewrite <- (app_nil_r p) at 1. rewrite ble_app_prefix. apply ble_nil. Qed.
+(* everything between two strings with a common prefix has that prefix *)
+Lemma between_has_prefix : forall p a b k, ble (p ++ a) k = true -> blt k (p ++ b) = true -> has_prefix p k = true.
+Proof.
+  induction p as [|c p IH]; intros a b k H1 H2; [reflexivity|].
+  destruct k as [|y k]; [cbn in H1; discriminate|].
+  unfold ble, blt in *. cbn [app] in *. rewrite bcmp_cons in H1, H2. cbn [has_prefix].
+  destruct (Z.compare_spec c y) as [E|L|G].
+  - subst y. rewrite Z.compare_refl in H2. rewrite Z.eqb_refl. cbn. eapply IH; [exact H1|exact H2].
+  - destruct (Z.compare_spec y c); try lia; discriminate.
+  - discriminate.
+Qed.
+
+(* ------------------------------------------------------------------ committed ranges (what a goleveldb iterator sees) *)
+Lemma range_entries_sorted : forall s lo hi, keys_sorted s -> keys_sorted (range_entries s lo hi).
+Proof. intros. apply filter_sorted. assumption. Qed.
+Lemma range_entries_in : forall s lo hi k v, keys_sorted s ->
+  (In (k, v) (range_entries s lo hi) <-> s_get k s = Some v /\ in_range lo hi k = true).
+Proof.
+  intros s lo hi k v Hs. unfold range_entries. rewrite filter_In. cbn [fst]. unfold s_get.
+  rewrite (sorted_get_in s k v Hs). tauto.
+Qed.
+
+Definition strip (pl : nat) (e : bytes * bytes) : bytes * bytes := (skipn pl (fst e), snd e).
+Definition inner_ents (path : bytes) (l : list (bytes * bytes)) : list (bytes * bytes) :=
+  map (fun e => (inner_key path (fst e), snd e)) l.
+
+Lemma skipn_inner_key : forall path k, skipn (S (length path)) (inner_key path k) = k.
+Proof.
+  intros. unfold inner_key. replace (path ++ SEP :: k) with ((path ++ [SEP]) ++ k) by (rewrite <- app_assoc; reflexivity).
+  replace (S (length path)) with (length (path ++ [SEP])) by (rewrite app_length; cbn; lia).
+  rewrite skipn_app, Nat.sub_diag, skipn_all. reflexivity.
+Qed.
+Lemma inner_key_as_app : forall path k, inner_key path k = (path ++ [SEP]) ++ k.
+Proof. intros. unfold inner_key. rewrite <- app_assoc. reflexivity. Qed.
+
+(* a list of entries whose keys all carry the bucket prefix is the image of its stripped form *)
+Lemma ents_with_prefix : forall path l,
+  Forall (fun e => has_prefix (path ++ [SEP]) (fst e) = true) l ->
+  l = inner_ents path (map (strip (S (length path))) l).
+Proof.
+  intros path l H. unfold inner_ents. induction H as [|[k v] l Hk Hl IH]; [reflexivity|].
+  cbn [map]. rewrite <- IH. f_equal.
+  cbn [fst] in Hk. apply has_prefix_iff in Hk. destruct Hk as [r Hr]. rewrite <- inner_key_as_app in Hr. subst k.
+  unfold strip. cbn [fst snd]. rewrite skipn_inner_key. reflexivity.
+Qed.
+Lemma inner_ents_sorted : forall path l, keys_sorted (inner_ents path l) -> keys_sorted l.
+Proof.
+  intros path l. induction l as [|e l IH]; cbn; intros H; [constructor|].
+  inversion H as [|? ? Hs Hall]; subst. constructor; [apply IH; exact Hs|].
+  rewrite Forall_forall in *. intros x Hx. specialize (Hall (inner_key path (fst x), snd x)).
+  unfold key_lt in *. cbn [fst] in *. rewrite <- (blt_app_prefix (path ++ [SEP])), <- !inner_key_as_app.
+  apply Hall. unfold inner_ents. apply in_map_iff. exists x. auto.
+Qed.
+Lemma inner_ents_in : forall path l k v, In (inner_key path k, v) (inner_ents path l) <-> In (k, v) l.
+Proof.
+  intros path l k v. unfold inner_ents. rewrite in_map_iff. split.
+  - intros [[k' v'] [E Hin]]. cbn in E. inversion E as [[E1 E2]]. unfold inner_key in E1.
+    apply app_inv_head in E1. inversion E1. subst. exact Hin.
+  - intros Hin. exists (k, v). auto.
+Qed.
+
+(* ------------------------------------------------------------------ read-only iterators *)
+Definition it_rest (it : iter) : list (bytes * bytes) :=
+  match it_pos it with SOI => it_ents it | At n => skipn (S n) (it_ents it) | EOI => [] end.
+
+Lemma skipn_nth_error {A} : forall (l : list A) n e, nth_error l n = Some e -> skipn n l = e :: skipn (S n) l.
+Proof.
+  induction l as [|x l IH]; intros n e H; destruct n; cbn in *; try discriminate.
+  - inversion H. reflexivity.
+  - apply IH. exact H.
+Qed.
+
+Lemma drain_read_only : forall fuel it,
+  it_ro it = true -> it_end it = false ->
+  Forall (fun e => fst e <> []) (it_ents it) ->
+  (length (it_rest it) < fuel)%nat ->
+  drain fuel it = map (strip (it_pl it)) (it_rest it).
+Proof.
+  induction fuel as [|fuel IH]; intros it Hro Hend Hne Hlen; [lia|].
+  cbn [drain]. unfold iter_next. rewrite Hend. unfold ldb_next, it_rest in *.
+  destruct (it_pos it) as [|n|] eqn:Epos.
+  - destruct (it_ents it) as [|e r] eqn:Eents.
+    + rewrite Hro. cbn. reflexivity.
+    + set (it' := set_ldb it (At 0%nat) false).
+      assert (Hk : iter_key it' = Some (skipn (it_pl it) (fst e)) /\ iter_value it' = snd e).
+      { unfold iter_key, iter_value, iter_raw, it'. cbn. rewrite Eents. cbn. destruct e as [k v]. cbn.
+        inversion Hne as [|? ? Hk _]; subst. cbn in Hk. destruct k; [congruence|]. auto. }
+      destruct Hk as [Hk Hv]. rewrite Hk, Hv. cbn [map]. f_equal.
+      rewrite (IH it'); unfold it'; cbn; auto.
+      * rewrite Eents. reflexivity.
+      * rewrite Eents. exact Hne.
+      * rewrite Eents. cbn in *. lia.
+  - destruct (S n <? length (it_ents it))%nat eqn:El.
+    + apply Nat.ltb_lt in El. destruct (nth_error (it_ents it) (S n)) as [e|] eqn:En;
+        [|apply nth_error_None in En; lia].
+      set (it' := set_ldb it (At (S n)) false).
+      assert (Hk : iter_key it' = Some (skipn (it_pl it) (fst e)) /\ iter_value it' = snd e).
+      { unfold iter_key, iter_value, iter_raw, it'. cbn [set_ldb it_end it_pos it_ents negb it_pl]. rewrite En.
+        destruct e as [k v]. cbn. rewrite Forall_forall in Hne. apply nth_error_In in En. apply Hne in En. cbn in En.
+        destruct k; [congruence|]. auto. }
+      destruct Hk as [Hk Hv]. rewrite Hk, Hv. rewrite (skipn_nth_error _ _ _ En). cbn [map]. f_equal.
+      rewrite (skipn_nth_error _ _ _ En) in Hlen. cbn [length] in Hlen.
+      rewrite (IH it'); unfold it'; cbn [set_ldb it_pos it_ents it_ro it_end it_pl]; auto. lia.
+    + apply Nat.ltb_ge in El. rewrite Hro. cbn [orb]. rewrite skipn_all2 by lia. reflexivity.
+  - rewrite Hro. reflexivity.
+Qed.
+
+Lemma ble_trans' : forall a b c, ble a b = true -> ble b c = true -> ble a c = true.
+Proof. exact ble_trans. Qed.
+
+(* every key in the range an iterator of bucket [path] covers belongs to that bucket *)
+Lemma iter_range_in_bucket : forall path start limit k, bytes_ok path -> bytes_ok k ->
+  in_range (inner_key path start)
+           (match limit with [] => bp_limit (inner_key path []) | _ :: _ => Some (inner_key path limit) end) k = true ->
+  has_prefix (path ++ [SEP]) k = true.
+Proof.
+  intros path start limit k Hp Hk H. unfold in_range in H. apply andb_true_iff in H. destruct H as [H1 H2].
+  rewrite inner_key_as_app in H1.
+  destruct limit as [|c limit].
+  - assert (Hp' : bytes_ok (path ++ [SEP])).
+    { apply Forall_app. split; auto. constructor; [unfold byte_ok, SEP; lia|constructor]. }
+    rewrite <- (bytes_prefix_range (path ++ [SEP]) k Hp' Hk). unfold in_range.
+    rewrite (ble_trans _ _ _ (ble_prefix_app _ _) H1). cbn.
+    rewrite inner_key_as_app, app_nil_r in H2. exact H2.
+  - rewrite inner_key_as_app in H2. eapply between_has_prefix; eauto.
+Qed.
+
+Definition user_range (start limit k : bytes) : bool :=
+  ble start k && match limit with [] => true | _ :: _ => blt k limit end.
+
+Lemma inner_range_is_user_range : forall path start limit k, bytes_ok path -> bytes_ok k ->
+  in_range (inner_key path start)
+           (match limit with [] => bp_limit (inner_key path []) | _ :: _ => Some (inner_key path limit) end)
+           (inner_key path k) = user_range start limit k.
+Proof.
+  intros path start limit k Hp Hk. unfold in_range, user_range. rewrite !inner_key_as_app, ble_app_prefix. f_equal.
+  destruct limit as [|c limit].
+  - assert (Hp' : bytes_ok (path ++ [SEP])).
+    { apply Forall_app. split; auto. constructor; [unfold byte_ok, SEP; lia|constructor]. }
+    assert (Hk' : bytes_ok ((path ++ [SEP]) ++ k)) by (apply Forall_app; auto).
+    pose proof (bytes_prefix_range (path ++ [SEP]) _ Hp' Hk') as H. unfold in_range in H.
+    rewrite has_prefix_app, ble_prefix_app in H. cbn in H. rewrite app_nil_r. exact H.
+  - rewrite inner_key_as_app, blt_app_prefix. reflexivity.
+Qed.
+
+(* C11_iter_exact: a read-only iterator over Range{start, limit} (empty limit = to the end of the bucket),
+   drained by Next(), yields exactly the committed entries of the bucket inside the range, ascending *)
+Lemma iter_exact : forall s h start limit, keys_sorted s -> keys_bytes s -> bytes_ok (h_path h) ->
+  let out := drain (S (length s)) (new_iterator s None h start limit) in
+  (forall k v, In (k, v) out <-> s_get (inner_key (h_path h) k) s = Some v /\ user_range start limit k = true) /\
+  StronglySorted (fun a b => blt (fst a) (fst b) = true) out.
+Proof.
+  intros s h start limit Hs Hb Hp out.
+  set (path := h_path h) in *.
+  set (ilimit := match limit with [] => bp_limit (inner_key path []) | _ :: _ => Some (inner_key path limit) end).
+  set (ents := range_entries s (inner_key path start) ilimit).
+  assert (Hpre : Forall (fun e => has_prefix (path ++ [SEP]) (fst e) = true) ents).
+  { rewrite Forall_forall. intros [k v] Hin. cbn [fst]. unfold ents, range_entries in Hin. apply filter_In in Hin.
+    destruct Hin as [Hin Hr]. cbn [fst] in Hr. eapply iter_range_in_bucket; eauto.
+    unfold keys_bytes in Hb. rewrite Forall_forall in Hb. apply (Hb (k, v) Hin). }
+  assert (Hout : out = map (strip (S (length path))) ents).
+  { unfold out. rewrite drain_read_only; cbn; auto.
+    - fold path ilimit ents. eapply Forall_impl; [|exact Hpre]. intros [k v] Hk. cbn in *.
+      intros E. subst k. destruct (path ++ [SEP]) eqn:E2; [destruct path; discriminate|]. cbn in Hk. discriminate.
+    - fold path ilimit ents. unfold ents, range_entries. pose proof (filter_length_le (fun e => in_range (inner_key path start) ilimit (fst e)) s). lia. }
+  pose proof (ents_with_prefix path ents Hpre) as Hents. rewrite <- Hout in Hents.
+  split.
+  - intros k v. rewrite <- (inner_ents_in path out k v), <- Hents. unfold ents. rewrite range_entries_in by exact Hs.
+    split; intros [H1 H2]; split; auto.
+    + unfold ilimit in H2. rewrite inner_range_is_user_range in H2; auto.
+      unfold keys_bytes in Hb. rewrite Forall_forall in Hb. unfold s_get in H1. apply sorted_get_in in H1; auto.
+      apply Hb in H1. cbn in H1. unfold inner_key in H1. apply Forall_app in H1. destruct H1 as [_ H1]. inversion H1; auto.
+    + unfold ilimit. rewrite inner_range_is_user_range; auto.
+      unfold keys_bytes in Hb. rewrite Forall_forall in Hb. unfold s_get in H1. apply sorted_get_in in H1; auto.
+      apply Hb in H1. cbn in H1. unfold inner_key in H1. apply Forall_app in H1. destruct H1 as [_ H1]. inversion H1; auto.
+  - apply (inner_ents_sorted path). rewrite <- Hents. apply range_entries_sorted. exact Hs.
+Qed.
+
+(* the same for NewIterator(db.BytesPrefix(p)): exactly the entries whose key has the prefix *)
+Definition prefix_slice (p : bytes) : bytes * bytes :=
+  match bytes_prefix p with (a, Some l) => (a, l) | (a, None) => (a, []) end.
+Lemma bp_limit_nonempty : forall p l, bp_limit p = Some l -> l <> [].
+Proof.
+  induction p as [|c p IH]; cbn; intros l H; [discriminate|].
+  destruct (bp_limit p); [inversion H; discriminate|]. destruct (c <? 255); inversion H; discriminate.
+Qed.
+Lemma prefix_slice_range : forall p k, bytes_ok p -> bytes_ok k ->
+  user_range (fst (prefix_slice p)) (snd (prefix_slice p)) k = has_prefix p k.
+Proof.
+  intros p k Hp Hk. rewrite <- (bytes_prefix_range p k Hp Hk). unfold prefix_slice, bytes_prefix, user_range, in_range.
+  destruct (bp_limit p) as [l|] eqn:E; cbn [fst snd]; auto.
+  destruct l; [apply bp_limit_nonempty in E; congruence|reflexivity].
+Qed.
+Lemma iter_prefix_exact : forall s h p, keys_sorted s -> keys_bytes s -> bytes_ok (h_path h) -> bytes_ok p ->
+  let out := drain (S (length s)) (new_iterator s None h (fst (prefix_slice p)) (snd (prefix_slice p))) in
+  (forall k v, In (k, v) out <-> s_get (inner_key (h_path h) k) s = Some v /\ has_prefix p k = true) /\
+  StronglySorted (fun a b => blt (fst a) (fst b) = true) out.
+Proof.
+  intros s h p Hs Hb Hp Hpp out. destruct (iter_exact s h (fst (prefix_slice p)) (snd (prefix_slice p)) Hs Hb Hp) as [H1 H2].
+  split; [|exact H2]. intros k v. fold out in H1. rewrite H1. split; intros [A B]; split; auto.
+  - rewrite prefix_slice_range in B; auto.
+    unfold keys_bytes in Hb. rewrite Forall_forall in Hb. unfold s_get in A. apply sorted_get_in in A; auto.
+    apply Hb in A. cbn in A. unfold inner_key in A. apply Forall_app in A. destruct A as [_ A]. inversion A; auto.
+  - rewrite prefix_slice_range; auto.
+    unfold keys_bytes in Hb. rewrite Forall_forall in Hb. unfold s_get in A. apply sorted_get_in in A; auto.
+    apply Hb in A. cbn in A. unfold inner_key in A. apply Forall_app in A. destruct A as [_ A]. inversion A; auto.
+Qed.
